@@ -6,7 +6,7 @@ META = {
     'rule': 'W-harness: every ASCII string of the stated length through the real tokenizer; '
             'oracle = scanner error with 0<=pos<=len, or spans defined, non-empty, contiguous 0..len.',
     'bounds': {
-        'quick': 'markup tokenize, stylesheet tokenize (property and value mode): all ASCII strings len<=2; 8 markup and 12 stylesheet prefixes (function names, custom properties, fields, escapes) + every suffix of <=2 characters',
+        'quick': 'markup tokenize, stylesheet tokenize (property and value mode): all ASCII strings len<=2; 10 markup and 12 stylesheet prefixes (function names, custom properties, fields, escapes) + every suffix of <=2 characters',
         'thorough': 'the same for all ASCII strings len<=3 (partitioned by length and first-character class)',
     },
     'outside_claim': ['strings longer than the bound', 'code points >= 128',
@@ -88,7 +88,7 @@ def mk_css(L, lo, hi, value_mode):
             'functions': ['emmet.css_abbreviation.tokenizer.tokenize and all consumers']}
 
 
-M_PREFIXES = ['ul>li{x', 'a[b="', 'x$@-', 'a{${1:', 'a\\', 'a*', '(a)*2', 'a.b$#']
+M_PREFIXES = ['ul>li{x', 'a[b="', 'x$@-', 'a{${1:', 'a\\', 'a*', '(a)*2', 'a.b$#', 'x$@^', 'x$$@']
 C_PREFIXES = ['a1', 'scale3d', 'p--', 'c#f', 'a$b', 'lg(', 'p:"', 'a1(2,', '#12', 'c#f0a1', 'p1.', 'm-1-']
 
 
